@@ -1,0 +1,38 @@
+//go:build verif
+
+// Contracts for gzv (contract-based deductive verification, /verif). Comment-only file.
+package handler
+
+// ---------------------------------------------------------------------------------------------
+// Middlewares as units: the request-handling closure of each middleware is verified on every exit (return and panic of
+// the wrapped handler). `served` counts calls of the wrapped handler, hdrCode[w] is the last status written to w.
+// ---------------------------------------------------------------------------------------------
+
+// C02: an admitted request resolves its promise exactly once on every exit; a shed request gets 503 and the handler is not run.
+//@ func SheddingHandler closure 2
+//@   property C02
+//@   requires shedder != nil
+//@   ensures  shAllows == old(shAllows) + 1
+//@   ensures  implies(shErr != nil, served == old(served) && hdrCode[w] == 503)
+//@   ensures  implies(shErr == nil, served == old(served) + 1 && resolved[shPromise] == 1)
+//@   ensures_panic shErr == nil && served == old(served) + 1 && resolved[shPromise] == 1
+
+// C01: same discipline for the breaker promise.
+//@ func BreakerHandler closure 1
+//@   property C01
+//@   requires brk != nil
+//@   ensures  brkAllows == old(brkAllows) + 1
+//@   ensures  implies(brkErr != nil, served == old(served) && hdrCode[w] == 503)
+//@   ensures  implies(brkErr == nil, served == old(served) + 1 && settled[brkPromise] == 1)
+//@   ensures_panic brkErr == nil && served == old(served) + 1 && settled[brkPromise] == 1
+
+// C05: the wrapped handler runs only while holding one of the n permits; the permit is given back on every exit; beyond the cap: 503.
+//@ func MaxConnsHandler closure 2
+//@   property C05
+//@   flag private_channels
+//@   requires syncx.limOK(latch)
+//@   ensures  syncx.limLen(latch) == old(syncx.limLen(latch))
+//@   ensures  implies(old(syncx.limLen(latch)) < syncx.limCap(latch), served == old(served) + 1)
+//@   ensures  implies(old(syncx.limLen(latch)) >= syncx.limCap(latch), served == old(served) && hdrCode[w] == 503)
+//@   ensures_panic syncx.limLen(latch) == old(syncx.limLen(latch)) && old(syncx.limLen(latch)) < syncx.limCap(latch)
+//@   call ServeHTTP#0: assert syncx.limLen(latch) == old(syncx.limLen(latch)) + 1 && syncx.limLen(latch) <= syncx.limCap(latch)
